@@ -100,7 +100,7 @@ pub fn quiesce(bus: &mut FakeBus, conn: Option<&zbus::Connection>, slots: &mut [
                 progress = true;
                 n += 1;
                 if n > 100_000 {
-                    panic!("executor does not settle");
+                    panic!("HARNESS: executor does not settle");
                 }
             }
         }
@@ -112,10 +112,20 @@ pub fn quiesce(bus: &mut FakeBus, conn: Option<&zbus::Connection>, slots: &mut [
         }
         rounds += 1;
         if rounds > 100_000 {
-            panic!("no quiescence");
+            panic!("HARNESS: no quiescence");
         }
         if !progress {
             return rounds;
         }
     }
+}
+
+/// Build a bus-mode client connection to a fresh fake bus (SASL + Hello answered by the fake bus); zbus' internal
+/// executor thread is off, so nothing runs unless this thread polls it.
+pub fn connect() -> (zbus::Connection, FakeBus) {
+    let (split, mut bus) = crate::fakebus::new_pair();
+    let mut b = Slot::new(zbus::connection::Builder::socket(split).internal_executor(false).build());
+    quiesce(&mut bus, None, &mut [&mut b], true);
+    let conn = b.out.take().expect("HARNESS: connection build did not finish").expect("HARNESS: connection build failed");
+    (conn, bus)
 }
